@@ -14,6 +14,25 @@ import (
 )
 
 func (c *Client) send(pkt pkts.Packet) error {
+	c.sendLock.Lock()
+	defer c.sendLock.Unlock()
+	return c.sendLocked(pkt)
+}
+
+// resend sends a packet again, with the DUP flag set if the packet has one.
+// The first transmission of the packet is possibly still in progress (the
+// retry timer is armed before it): the packet changes under the send lock.
+func (c *Client) resend(pkt pkts.Packet) error {
+	c.sendLock.Lock()
+	defer c.sendLock.Unlock()
+	if dupPkt, ok := pkt.(pkts.PacketWithDUP); ok {
+		dupPkt.SetDUP(true)
+	}
+	return c.sendLocked(pkt)
+}
+
+// You must acquire c.sendLock before calling this function!
+func (c *Client) sendLocked(pkt pkts.Packet) error {
 	c.log.Debug("<- %v", pkt)
 	buf, err := pkt.Pack()
 	if err != nil {
